@@ -56,7 +56,8 @@ int main(int argc, char **argv) {
     // (1) mantissa/exponent lattice of tau and T
     for (int e = -60; e <= 19; ++e) {
       std::string unit; if (!unit_begin(fmt("lat/%d", e), unit)) continue; Chk k(c, unit);
-      for (int mi = 0; mi < 16; ++mi) { double v = std::ldexp(1.0 + mi / 16.0, e); if (v <= 1e6) { k.tau_point(v); k.tau_point(-v); } if (v >= 1e-6 && v <= 1e6) k.T_point(v); }
+      const int MB = th ? 256 : 16;   // 4-bit (quick) / 8-bit (thorough) mantissas
+      for (int mi = 0; mi < MB; ++mi) { double v = std::ldexp(1.0 + (double)mi / MB, e); if (v <= 1e6) { k.tau_point(v); k.tau_point(-v); } if (v >= 1e-6 && v <= 1e6) k.T_point(v); }
       if (e == 0) { k.tau_point(0.0); k.tau_point(-0.0); k.T_point(1.0); k.tau_point(1e6); k.tau_point(-1e6); k.T_point(1e-6); k.T_point(1e6); }
       c.st.cls("mantissa/exponent lattice");
       if (e % 16 == 0) c.st.sample(fmt("unit %s: tau = +-m*2^%d and T = m*2^%d for the 16 four-bit mantissas m: positivity, adjacent-double monotonicity, strictness at 16 ulp, backward = g*T'(tau), inverse round trips", unit.c_str(), e, e));
